@@ -10,6 +10,7 @@ from . import common
 def run(ctx):
     P = semcheck.gen_programs(ctx.seed * 7919 + 251, ctx.pick(110, 1500), "strat", p_edge=False)
     P += common.family_small(ctx.pick(60, 800), ctx.seed + 25000)
+    P += common.selfpred_family(ctx.pick(60, 600), ctx.seed + 25050)
     # the same probabilistic statement written twice is two independent choices (and must stay two in the exported text)
     import copy
     import random
